@@ -1,7 +1,7 @@
 #!/venv/bin/python
 """C13 - persisted history: correspondence with Ptk.Model.C13 + property oracle.
 
-Three kinds of cases
+Four kinds of cases
   file   : FileHistory instances on one real file (scratch dir under /verif/.work/c13):
            appends alternating between instances, History.load()/get_strings(),
            fresh-instance loads, load at EVERY truncation offset, torn write + recovery,
@@ -11,6 +11,10 @@ Three kinds of cases
            enforced from the harness side only (no source hooks): `prompt_toolkit.history.threading`
            is replaced, for the duration of one case, by a shim whose Lock / Event / Thread pause at
            the synchronisation points, and the inner History pauses inside load_history_strings.
+           After the schedule all threads run freely and a load() in progress must complete correctly.
+  th2    : the same with two or three simultaneous load() calls (model THn); the loader thread also
+           stops after every single event.set().  The model takes the flag Gen.C13.notifyCopies, which
+           harness/gen_c13.py determines from the current tree by a behavioural probe.
 """
 from __future__ import annotations
 
@@ -62,13 +66,15 @@ RULE = ("file: exhaustive entry lists over the alphabet {a,+,#,LF,CR,U+2028,NUL,
 EXHAUSTIVE = True
 EXHAUSTIVE_SCOPE = {
     "quick": "file: 1 entry len<=3, 2 entries len<=1, raw files len<=3 over 9 byte symbols, every truncation "
-             "offset of each; th: ALL complete loader/consumer interleavings without appends for stores of 0, 1 "
-             "and 2 items; all schedules with one concurrent append up to depth 8; two simultaneous load() calls: "
+             "offset of each; th: ALL complete loader/consumer interleavings without appends for stores of 0 and 1 "
+             "items (2 items: all prefixes of length 12); all schedules with one concurrent append up to depth "
+             "7-8; two simultaneous load() calls: "
              "all schedules up to depth 7 (per-event.set() granularity) + all interleavings of the final notify "
              "loop with a finishing consumer",
     "thorough": "file: 1 entry len<=4, 2 entries len<=2, 3 entries len<=1, raw files len<=4 over 9 byte symbols, "
                 "every truncation offset of each; th: ALL complete interleavings without appends for stores of "
-                "0..3 items (with a second load() for 0-1 items); all schedules up to depth 12 with one "
+                "0, 1 and 2 items (3 items: all prefixes of length 18; with a second load() for 0-1 items); all "
+                "schedules up to depth 12 with one "
                 "concurrent append from 3 initial stores; depth 10 with two appends; two simultaneous load() "
                 "calls: all schedules up to depth 10 for stores of 0 and 1 items",
 }
@@ -444,8 +450,6 @@ class ThRun:
         self.athread = None
         self.pending = None
         self.threads = []
-        self.first_out = None  # (out, history snapshot info) of completed load() calls
-        self.completed = []
 
     # -- consumer
     def _consume(self, out):
@@ -1272,11 +1276,11 @@ def label_appends(sched):
 def th_exhaustive(tier):
     # (old, pre, depth, max concurrent appends, allow a second load())
     if tier == "quick":
-        plan = [([], [], 10, 0, False), ([], ["p1"], 12, 0, False), (["o1", "o2"], [], 14, 0, False),
-                (["o1", "o2"], [], 8, 1, True), ([], ["p1"], 8, 1, True)]
+        plan = [([], [], 40, 0, False), ([], ["p1"], 40, 0, False), (["o1", "o2"], [], 12, 0, False),
+                (["o1", "o2"], [], 7, 1, True), ([], ["p1"], 8, 1, True)]
     else:
-        plan = [([], [], 10, 0, True), ([], ["p1"], 14, 0, True), (["o1", "o2"], [], 14, 0, False),
-                (["o1", "o2"], ["p1"], 18, 0, False),
+        plan = [([], [], 30, 0, True), ([], ["p1"], 40, 0, False), ([], ["p1"], 20, 0, True),
+                (["o1", "o2"], [], 40, 0, False), (["o1", "o2"], ["p1"], 18, 0, False),
                 (["o1", "o2"], [], 12, 1, True), ([], ["p1"], 12, 1, True), (["o1"], ["p1"], 12, 1, True),
                 ([], [], 10, 2, True), (["o1"], [], 10, 2, True)]
     for old, pre, depth, max_app, restarts in plan:
@@ -1308,9 +1312,6 @@ def rand_th_case(rng, with_appends):
         ctl.do(k)
         sched.append(k)
     return {"kind": "th", "old": old, "pre": pre, "ops": label_appends(sched)}
-
-
-C_NEXT = {"-": "start", "wait": "wait", "read": "read", "yield": "yield"}
 
 
 def rand_th2_case(rng):
@@ -1448,6 +1449,10 @@ def cases(tier, rng):
     if tier in _EXHAUSTIVE_DONE:
         yield from random_cases(tier, rng)
         return
+    if tier == "thorough" and "quick" in _EXHAUSTIVE_DONE:
+        # the failing-input search of a quick run whose proofs / correspondence broke: bounded extra search
+        yield from itertools.islice(random_cases("thorough", rng), 0, None, 3)
+        return
     _EXHAUSTIVE_DONE.add(tier)
     yield from exhaustive_cases(tier, rng)
     yield from random_cases(tier, rng)
@@ -1546,11 +1551,6 @@ def sample_view(case):
         return {"kind": "codec", "strs": case["strs"][:3], "bytes": case["bytes"][:3],
                 "n": len(case["strs"]) + len(case["bytes"])}
     return case
-
-
-def _cleanup():
-    d = os.path.join(SCRATCH, "p%d" % os.getpid())
-    shutil.rmtree(d, ignore_errors=True)
 
 
 if __name__ == "__main__":
